@@ -7,8 +7,14 @@ import l1, l2
 NEEDS = ("runner", "cli")
 
 # panic sites of the back ends that are open known findings: site -> id
-KNOWN_SITES = {"kotlin.rs:183": "kotlin-const-todo", "swift.rs:268": "swift-const-todo",
-               "scala.rs:131": "scala-empty-package", "go.rs:315": "go-nonascii-enum-name"}
+KNOWN_SITES = {}
+
+
+def known_site(a, cfg):
+    """an open known finding for this panic? (go.rs: only with a non-ASCII entry in uppercase_acronyms)"""
+    if str(a.get("panic", "")).startswith("go.rs") and any(ord(ch) > 127 for x in cfg.get("uppercase_acronyms", []) for ch in x):
+        return "go-nonascii-acronym"
+    return None
 
 
 def run(check):
@@ -66,7 +72,7 @@ def run(check):
         check.saw(("gen", lang, c["text"], json.dumps(cfg, sort_keys=True)), nontrivial=True)
         check.count("generate-%s-%s" % (lang, "panic" if "panic" in a else "ok" if "ok" in a else "error"))
         if "panic" in a:
-            kid = KNOWN_SITES.get(a["panic"])
+            kid = known_site(a, cfg)
             if kid and check.known(kid, {"lang": lang, "config": cfg, "source": c["text"], "panic": a["panic"]}):
                 continue
             if new_panic is None:
@@ -76,15 +82,20 @@ def run(check):
         check.violation("%s generation panics at %s" % (lang, a["panic"]),
                         case={"source": c["text"], "lang": lang, "config": cfg}, impl=a, failing_input=True)
     # stored witnesses of the open known findings
-    wit = [("kotlin", {"package": "p"}, "#[typeshare]\npub const X: u32 = 1;\n"),
+    # witnesses: the open finding, and the repaired ones (a panic there is a regression = violation)
+    wit = [("go", {"package": "p", "uppercase_acronyms": ["é"]}, "#[typeshare]\npub struct S { pub é: u8 }\n"),
+           ("kotlin", {"package": "p"}, "#[typeshare]\npub const X: u32 = 1;\n"),
            ("swift", {}, "#[typeshare]\npub const X: u32 = 1;\n"),
            ("scala", {"package": ""}, "#[typeshare]\npub struct S { pub a: u8 }\n"),
            ("go", {"package": "p"}, "#[typeshare]\n#[serde(tag = \"t\", content = \"c\")]\npub enum Éa { A(u8) }\n")]
     wans = runner([{"op": "generate", "lang": l, "config": cfg, "files": [{"src": s_, "crate": "", "file_name": "o", "path": "w.rs"}]}
                    for l, cfg, s_ in wit])
     for (l, cfg, s_), a in zip(wit, wans):
-        if "panic" in a and a["panic"] in KNOWN_SITES:
-            check.known(KNOWN_SITES[a["panic"]], {"lang": l, "config": cfg, "source": s_, "panic": a["panic"]})
+        if "panic" in a:
+            kid = known_site(a, cfg)
+            if not (kid and check.known(kid, {"lang": l, "config": cfg, "source": s_, "panic": a["panic"]})):
+                check.violation("%s generation panics at %s (regression of a repaired defect)" % (l, a["panic"]),
+                                case={"source": s_, "lang": l, "config": cfg}, impl=a, failing_input=True)
     cli_part(check, cases)
     check.assumptions += ["what happens after a worker thread of the `ignore` walker panics (hang vs abort) is not modelled; it is observed through the 30 s time-out of the process-level runs",
                           "back-end panic freedom is claimed only through the in-process runs here until the back-end models carry their own no-panic theorems"]
@@ -121,12 +132,6 @@ def cli_part(check, cases):
             elif r["rc"] == 1 and kind in ("unparsable", "non-utf8") and "lib.rs" not in r["err"]:
                 problem = "the diagnostic does not name the offending file"
             if problem:
-                site = None
-                for s_ in KNOWN_SITES:
-                    if s_.replace(".rs:", ".rs:") in r["err"]:
-                        site = s_
-                if site and check.known(KNOWN_SITES[site], {"lang": lang, "source": text, "stderr": r["err"][-500:]}):
-                    continue
                 check.violation("typeshare --lang %s %s: %s" % (lang, "-d" if multi else "-o", problem),
                                 case={"source": text, "lang": lang, "multi_file": multi},
                                 impl={"rc": r["rc"], "stderr": r["err"][-2000:]}, failing_input=True)
